@@ -43,7 +43,9 @@ def parseOutcomes (s : String) : List (Nat × Outcome) :=
   if s == "-" then [] else
   (s.splitOn ";").filterMap fun o =>
     match (o.splitOn ":").map String.toNat? with
-    | [some id, some st, some rs, some er] => some (id % 64, ⟨st, resOf rs, er⟩)
+    | [some id, some st, some rs, some er] =>
+      -- res 9: the rule writes nothing, what stands is what `Rule_verify` pre-loads before every rule
+      if rs == 9 then some (id % 64, ⟨st, .na, GEN_2⟩) else some (id % 64, ⟨st, resOf rs, er⟩)
     | _ => none
 
 def mkρ (tbl : List (Nat × Outcome)) (id : Nat) : Outcome :=
@@ -63,7 +65,7 @@ def isSublist : List Nat → List Nat → Bool
 def handle (inp : String) (out : String) : String :=
   match words inp with
   | [op, chain, outs] =>
-    if op != "verify" && op != "verifyc" && op != "verifyf" then "skip unknown-op" else
+    if op != "verify" && op != "verifyc" && op != "verifyf" && op != "verifyg" && op != "verifyh" then "skip unknown-op" else
     let ps := (chain.splitOn "|").map parsePolicy
     let ρ := mkρ (parseOutcomes outs)
     let v := verify ρ ps
